@@ -23,6 +23,9 @@ let parse_op toks = match toks with
   | ["reset"] -> OReset
   | ["hash"; h] -> OHash (bytes_of_hex h)
   | ["hmac"; k; m] -> OHmac (bytes_of_hex k, bytes_of_hex m)
+  (* result buffer inside the key / message buffer: the arguments are the bytes the buffers hold at the call *)
+  | ["hmacalias"; _; _; k; m] -> OHmac (bytes_of_hex k, bytes_of_hex m)
+  | ["hashalias"; _; h] -> OHash (bytes_of_hex h)
   | _ -> failwith ("bad op: " ^ String.concat " " toks)
 
 (* updrep <hex> <times> = <times> consecutive OUpdate of the same chunk (long messages without long op lines).
@@ -35,6 +38,42 @@ let parse_op toks = match toks with
 let beyond toks = match toks with
   | ("updrepx" | "updfillx" | "hashfillx" | "hmacfillx") :: _ -> true
   | _ -> false
+
+(* threads <mode> <rounds> <chunk> <args>: N independent hashers, one per thread, nothing shared (harness/sha.cpp).  Model
+   and spec have no threads: every hasher is a machine of its own, started from init (spec: the empty message), fed
+   its own message (mode upd: in pieces of <chunk> bytes, then finalize; two rounds on the same machine when
+   rounds >= 2, as the harness reuses the object) - the expected line is the list of the N results, whatever the
+   schedule.  The hasher of the enclosing case is not touched. *)
+let rec pieces chunk (l : 'a list) : 'a list list =
+  if chunk <= 0 || List.length l <= chunk then [l]
+  else (List.filteri (fun i _ -> i < chunk) l) :: pieces chunk (List.filteri (fun i _ -> i >= chunk) l)
+
+let thread_jobs mode args =
+  let rec pairs = function k :: m :: tl -> (k, m) :: pairs tl | _ -> [] in
+  match mode with
+  | "hmac" -> List.map (fun (k, m) -> [OHmac (bytes_of_hex k, bytes_of_hex m)]) (pairs args)
+  | "hash" -> List.map (fun m -> [OHash (bytes_of_hex m)]) args
+  | _ -> failwith "thread_jobs"
+
+(* one thread's observation: run `ops` `rounds` (1 or 2) times on ONE machine; the result of a round = its last result *)
+let thread_line (start : 'st) (stepf : 'st -> op -> 'st * z list option) (ops : op list) (rounds : int) : string =
+  let round st = List.fold_left (fun (st, _) o -> stepf st o) (st, None) ops in
+  let (st1, r1) = round start in
+  let s1 = (match r1 with Some d -> hex_of_bytes d | None -> "-") in
+  if rounds < 2 then s1 else
+    let (_, r2) = round st1 in
+    let s2 = (match r2 with Some d -> hex_of_bytes d | None -> "-") in
+    if s1 = s2 then s1 else s1 ^ "/" ^ s2
+
+let threads_line start stepf toks =
+  match toks with
+  | "threads" :: mode :: rounds :: chunk :: args ->
+    let rounds = min 2 (int_of_string rounds) and chunk = int_of_string chunk in
+    let jobs = if mode = "upd"
+      then List.map (fun m -> List.map (fun p -> OUpdate p) (pieces chunk (bytes_of_hex m)) @ [OFinalize]) args
+      else thread_jobs mode args in
+    String.concat "," (List.map (fun ops -> thread_line start stepf ops rounds) jobs)
+  | _ -> failwith "threads_line"
 
 let rec repeat_op n f x = if n <= 0 then x else repeat_op (n - 1) f (f x)
 
@@ -53,8 +92,10 @@ let () =
              | ["updrep"; h; n] -> let d = bytes_of_hex h in
                  (repeat_op (int_of_string n) (fun s -> fst (step s (OUpdate d))) st, None)
              | ["setcount"; n] -> (set_count st (z_of_dec n), None)
+             | "threads" :: _ -> (st, None)
              | _ -> step st (parse_op toks) in
-           emit (Printf.sprintf "%s | %s %s | %s" (res_str r) (dec_of_z st'.count)
+           let rs = (match toks with "threads" :: _ -> threads_line init step toks | _ -> res_str r) in
+           emit (Printf.sprintf "%s | %s %s | %s" rs (dec_of_z st'.count)
                    (String.concat "," (List.map (fun w -> Printf.sprintf "%08x" (int_of_z w)) st'.state))
                    (hex_of_bytes st'.buffer));
            Some st')
@@ -67,5 +108,6 @@ let () =
          | _, _ when beyond toks -> emit "?"; None
          | Some m, ["updrep"; h; n] -> let d = bytes_of_hex h in
              emit "-"; Some (repeat_op (int_of_string n) (fun m -> fst (spec_step m (OUpdate d))) m)
+         | Some m, ("threads" :: _) -> emit (threads_line [] spec_step toks); Some m
          | Some m, _ -> let (m', r) = spec_step m (parse_op toks) in emit (res_str r); Some m')
       (fun _ -> ())
